@@ -451,7 +451,7 @@ CONN_BODIES = [
     "connection.py:Connection:query", "connection.py:Connection:ok_or_eof", "connection.py:Connection:text_resultset",
     "connection.py:Connection:com_stmt_prepare_response", "connection.py:Connection:deprecate_eof",
     "stream.py:MysqlStream:write", "stream.py:MysqlStream:drain", "stream.py:MysqlStream:reset_seq",
-    "utils.py::cooperative_iterate", "utils.py::aiterate",
+    "utils.py::cooperative_iterate", "utils.py::aiterate", "constants.py::=DEFAULT_SERVER_CAPABILITIES", "packets.py::make_column_count",
     "server.py:MysqlServer:_client_connected_cb",
 ]
 
